@@ -65,6 +65,11 @@ pub struct HarnessPhy {
     pub tx_done: TxDone,
     /// RX bytes become visible only at multiples of this many ticks (0 = immediately).
     pub rx_chunk: u64,
+    /// Transmitter latency (ticks, maximum) and the seed of the per-transmission amounts.
+    pub tx_lag_max: u64,
+    pub tx_lag_seed: u64,
+    tx_count: u64,
+    pub stat_lagged_tx: u64,
     /// Per-poll logs, cleared by the world.
     pub rx_events: Vec<RxEvent>,
     pub tx_started: Vec<usize>,
@@ -107,6 +112,10 @@ impl HarnessPhy {
             now_local: 0,
             tx_done: TxDone::Exact,
             rx_chunk: 0,
+            tx_lag_max: 0,
+            tx_lag_seed: 0,
+            tx_count: 0,
+            stat_lagged_tx: 0,
             rx_events: Vec::new(),
             tx_started: Vec::new(),
             contract: Vec::new(),
@@ -227,11 +236,26 @@ impl ProfibusPhy for HarnessPhy {
                 self.contract
                     .push("transmit_data called while the previous transmission of this station is still on the wire".to_string());
             }
-            let idx = self
-                .bus
-                .borrow_mut()
-                .transmit(self.now_ticks, self.id, buf[..len].to_vec(), true, false);
-            self.tx_end = self.now_ticks + len as u64 * CHAR;
+            // transmitter latency: a different amount for every transmission
+            let lag = if self.tx_lag_max == 0 {
+                0
+            } else {
+                self.tx_count += 1;
+                let mut z = self.tx_lag_seed.wrapping_add(self.tx_count.wrapping_mul(0x9E37_79B9_7F4A_7C15));
+                z = (z ^ (z >> 30)).wrapping_mul(0xBF58_476D_1CE4_E5B9);
+                z = (z ^ (z >> 27)).wrapping_mul(0x94D0_49BB_1331_11EB);
+                z ^= z >> 31;
+                // half of the transmissions go out at once
+                if z & 1 == 0 {
+                    0
+                } else {
+                    self.stat_lagged_tx += 1;
+                    (z >> 1) % (self.tx_lag_max + 1)
+                }
+            };
+            let start = self.now_ticks + lag;
+            let idx = self.bus.borrow_mut().transmit(start, self.id, buf[..len].to_vec(), true, false);
+            self.tx_end = start + len as u64 * CHAR;
             self.tx_started.push(idx);
         }
         r
